@@ -39,6 +39,7 @@ type Activation struct {
 	callerA *Activation
 	onwrite map[string][]Clause
 	locked  bool
+	loopModes map[string]*arrMode
 }
 
 type retRec struct {
@@ -363,7 +364,9 @@ func (t *Task) funcID(fn *ssa.Function) string {
 	key := "fnnz:" + name
 	if !t.pureDone[key] {
 		t.pureDone[key] = true
-		t.asserts = append(t.asserts, "(> "+c+" 0)")
+		t.nfn++
+		fi := t.declareFun("$fnidx", []string{"Int"}, "Int")
+		t.lateFacts = append(t.lateFacts, sAnd("(> "+c+" 0)", sEq(sApp(t.fkind(), c), "1"), sEq(sApp(fi, c), sInt(int64(t.nfn)))))
 	}
 	return c
 }
@@ -446,6 +449,13 @@ func (a *Activation) step(instr ssa.Instruction, st *State) *State {
 		return a.unop(in, st)
 	case *ssa.Alloc:
 		T := derefType(in.Type())
+		if arr, ok := T.Underlying().(*types.Array); ok {
+			// arrays live in the element arrays of their element type, keyed by the array's reference
+			ref := a.allocRef(st, "array", in.Comment)
+			st.private = append(st.private, privRef{ref, "elem:" + prefixFor(arr.Elem())})
+			a.env[in] = Val{K: KRef, T: in.Type(), S: ref}
+			return st
+		}
 		ref := a.allocRef(st, prefixFor(T), in.Comment)
 		st.private = append(st.private, privRef{ref, prefixFor(T)})
 		// zero-initialise
@@ -497,7 +507,14 @@ func (a *Activation) step(instr ssa.Instruction, st *State) *State {
 		}
 		id := t.fresh("clo:"+fn.Name(), "Int")
 		t.assume(st.pc, "(> "+id+" 0)")
+		t.assume(st.pc, sEq(sApp(t.fkind(), id), "2"))
 		t.assume(st.pc, sEq(sApp(t.cloFn(), id), t.funcID(fn)))
+		for bi, bv := range bs {
+			if bv.isScalar() && bv.K != KBool && bv.K != KF32 && bv.K != KF64 {
+				bf := t.declareFun(fmt.Sprintf("$clobind%d", bi), []string{"Int"}, "Int")
+				t.assume(st.pc, sEq(sApp(bf, id), bv.S))
+			}
+		}
 		a.env[in] = Val{K: KFunc, T: in.Type(), S: id, Clo: &Closure{Fn: fn, Bindings: bs}}
 	case *ssa.MakeInterface:
 		a.env[in] = a.makeInterface(in, st)
@@ -673,8 +690,27 @@ func (a *Activation) storeThrough(st *State, addr Val, T types.Type, v Val, pos 
 	a.nilCheck(addr, st, pos, "store")
 	a.guardCheck(st, prefix, ref, pos, true)
 	a.escape(st, v)
+	a.frozenCheck(st, prefix, ref, pos)
 	t.storeAt(st, prefix, "", ref, idx, T, v)
 	a.afterWrite(st, prefix, ref)
+}
+
+// frozenCheck: configuration fields declared frozen may only be written on objects that are still private
+// (being constructed); anything else invalidates the frame assumption used across callbacks.
+func (a *Activation) frozenCheck(st *State, prefix, ref string, pos token.Pos) {
+	t := a.t
+	if !t.eng.con.Frozen[prefix] || a.hasClause("builder") {
+		return
+	}
+	for _, p := range st.private {
+		if p.ref == ref {
+			return
+		}
+	}
+	a.arith["frozen"]++
+	name := fmt.Sprintf("%s#frozen[%s:%d]", fullName(a.fn), shortName(prefix), a.arith["frozen"])
+	o := t.oblige("frozen", name, "C14.frozen", st.pc, tFalse, posStr(t.eng.fset, pos), "store to frozen field "+prefix+" of a published object")
+	o.Fn = fullName(a.fn)
 }
 
 func (a *Activation) loadThrough(st *State, addr Val, T types.Type, pos token.Pos) Val {
@@ -1063,6 +1099,14 @@ func (t *Task) implementsTerm(x Val, IT types.Type) string {
 		}
 	}
 	f := t.declareFun("$impl:"+typeKey(IT), []string{"Int"}, "Bool")
+	if it, ok := IT.Underlying().(*types.Interface); ok && !t.pureDone["impl:"+typeKey(IT)] {
+		t.pureDone["impl:"+typeKey(IT)] = true
+		for _, C := range t.eng.allModuleTypes() {
+			if implementsErased(C, it) {
+				t.asserts = append(t.asserts, sApp(f, sInt(int64(t.eng.tagOf(C)))))
+			}
+		}
+	}
 	return sAnd(sNot(sEq(x.S, "0")), sApp(f, sApp(t.ifTag(), x.S)))
 }
 
